@@ -54,6 +54,17 @@ func (p *Prog) VerifyFunc(fi *FuncInfo, fc *FuncContract) (res *FuncResult) {
 	x := &fnv{p: p, fi: fi, fc: fc, pkg: fi.Pkg, info: fi.Pkg.TypesInfo, c: c, h: NewHeap(c), counters: map[string]int{},
 		loopOrd: map[ast.Node]int{}, callOrd: map[string]int{}, boxedVar: map[types.Object]bool{}, assumed: map[string]bool{},
 		atDone: map[*AtClause]int{}, litOfVar: map[types.Object]*ast.FuncLit{}, activeLoops: map[int]*loopCtx{}, tids: map[string]types.Type{}, ifaces: map[string]types.Type{}}
+	if len(fc.Skip) > 0 {
+		var ks []string
+		for k := range fc.Skip {
+			ks = append(ks, k)
+		}
+		sort.Strings(ks)
+		x.assumeNote("partial verification of " + fi.QualName() + ": obligations of kind " + strings.Join(ks, ", ") + " are not checked (their statements are assumed)")
+	}
+	if fc.Uses != nil {
+		x.assumeNote("partial verification of " + fi.QualName() + ": only the postconditions of the callees listed in its `uses` clause are relied on")
+	}
 	defer func() {
 		if r := recover(); r != nil {
 			switch e := r.(type) {
